@@ -18,7 +18,7 @@ one() {
   expect=$(grep -m1 '^# expect:' "$p" | cut -d' ' -f3-)
   git -C "$wt" checkout -q -- . ; git -C "$wt" clean -fdq
   if ! git -C "$wt" apply "$p" 2>/dev/null; then echo "SKIP $(basename $p): patch does not apply"; return 1; fi
-  out=$(GOCV_TIMEOUT=8 GOCV_REPO="$wt" GOCV_OUT="$W/out$slot" /verif/bin/gocv check "$prop" --tier quick 2>&1); rc=$?
+  out=$(GOCV_TIMEOUT=${GOCV_TIMEOUT:-12} GOCV_REPO="$wt" GOCV_OUT="$W/out$slot" /verif/bin/gocv check "$prop" --tier quick 2>&1); rc=$?
   if [ $rc -eq 1 ] && echo "$out" | grep -q "^VIOLATION property=$prop" && { [ -z "$expect" ] || echo "$out" | grep -q "$expect"; }; then
     first=$(echo "$out" | grep -m1 '^VIOLATION')
     replayed=""; echo "$out" | grep '^VIOLATION' | grep -qv 'no-failing-input-found' && replayed=" [replayed on the real code]"
